@@ -40,96 +40,92 @@ def run(ctx, anchors=None):
         ctx.site()
         ctx.inst(lits == [tag], "R06.1", "tag=" + name, "%s:%d" % (v["file"], v["line"]), "%s = TaggedHash(\"%s\")" % (name, tag),
                  "tap hashes with the tag %s where BIP341 / the verifier use \"%s\"" % (lits, tag))
-    # leaf
+    # leaf / branch: the term of m_hash computed by the constructors (G-SYM: helpers inlined, temporaries and swaps resolved)
+    from .. import symx
+    this = ("a", "this")
+    L, R, O = ("a", "L"), ("a", "R"), ("a", "O")
+    X = symx.Explorer(prog, distinct=[L, R, O, symx.NULL], inline=lambda fn, n: fn.file == "tap.cpp")
     leafc = [f for f in fb.fns("TapLeaf::TapLeaf") if any(p["ct"] == "CScript" for p in f.params)]
     if not leafc:
         raise AnalysisBroken("TapLeaf(index, script) constructor not found")
     leafc = leafc[0]
-    ops = []
-    hasher = None
-    for n in leafc.nodes():
-        if n["k"] == "opcall" and n.get("op") == "<<":
-            base, o = streams.flatten_chain(n)
-            if base is not None and base.get("k") == "ref":
-                ops = o
-                # which global was it copied from
-                for m in leafc.nodes():
-                    if m["k"] == "decl":
-                        for d in m["decls"]:
-                            if d["n"] == base["n"] and d.get("init") is not None:
-                                hs = [y["n"] for y in walk(d["init"]) if y["k"] == "ref" and y.get("dk") == "global"]
-                                hasher = hs[0] if hs else None
-                break
-    lv = astq.const_value(ops[0][1]) if ops else None
+    sparam = [p["n"] for p in leafc.params if p["ct"] == "CScript"][0]
     want_lv = fb.var("TAPROOT_LEAF_TAPSCRIPT").get("value")
+    want_leaf = ("ap", "m:GetSHA256", ("ap", "mut:<<", ("ap", "mut:<<", ("a", "HasherTapLeaf"), symx.C(want_lv)), ("a", sparam)))
+    try:
+        louts = [o for o in X.explore(leafc, this=this) if o.status in ("end", "ret")]
+    except symx.Unsupported as e:
+        raise AnalysisBroken("R06.1: TapLeaf constructor: %s" % e)
     ctx.site()
-    ctx.inst(hasher == "HasherTapLeaf" and len(ops) == 2 and lv == want_lv and astq.estr(ops[1][1]) == "script", "R06.1", "leaf-stream", leafc.loc(),
-             "leaf hash = TapLeaf(0x%02x, script)" % (lv or 0),
-             "tap's leaf hash streams %s into %s; the verifier hashes (leaf version 0x%02x, script) with TapLeaf" % ([astq.estr(o[1]) for o in ops], hasher, want_lv))
-    one_byte = bool(ops) and ("uint8_t" in astq.estr(ops[0][1]) or ops[0][1].get("ty") == "uint8_t" or "unsigned char" in (ops[0][1].get("ty") or ""))
+    got_leaf = sorted({symx.show(o.field(this, "m_hash")) for o in louts})
+    ctx.inst(bool(louts) and all(o.field(this, "m_hash") == want_leaf for o in louts), "R06.1", "leaf-stream", leafc.loc(),
+             "leaf hash = %s" % symx.show(want_leaf),
+             "tap's leaf hash is %s; the verifier hashes (leaf version 0x%02x, script) with TapLeaf, i.e. %s" % (got_leaf, want_lv, symx.show(want_leaf)))
+    one_byte = False
+    for o in louts:
+        for e in o.events:
+            if e.kind == "op" and e.name == "<<" and e.terms[1] == symx.C(want_lv):
+                opnd = e.node["args"][1]
+                one_byte = "uint8_t" in astq.estr(opnd) or opnd.get("ty") in ("uint8_t", "const uint8_t") or "unsigned char" in (opnd.get("ty") or "") or (opnd.get("ct") or "") == "unsigned char"
     ctx.inst(one_byte, "R06.1", "leaf-version-one-byte", leafc.loc(), "the leaf version is streamed as a single byte")
     # branch
     brc = fb.fn("TapBranch::TapBranch")
-    _cm.require_names(brc, ["h_l", "h_r", "hasher", "m_l", "m_r"], "R06.1")
-    cmp = None
-    for n in brc.nodes():
-        if n["k"] == "if" and n["cond"].get("k") == "call" and n["cond"].get("n") == "lexicographical_compare":
-            cmp = n
-    stream = None
-    bh = None
-    for n in brc.nodes():
-        if n["k"] == "opcall" and n.get("op") == "<<":
-            base, o = streams.flatten_chain(n)
-            if base is not None and base.get("k") == "ref" and len(o) == 2:
-                stream = [astq.estr(x[1]) for x in o]
-                for m in brc.nodes():
-                    if m["k"] == "decl":
-                        for d in m["decls"]:
-                            if d["n"] == base["n"] and d.get("init") is not None:
-                                hs = [y["n"] for y in walk(d["init"]) if y["k"] == "ref" and y.get("dk") == "global"]
-                                bh = hs[0] if hs else None
-    ok_branch = False
-    detail = ""
-    if cmp is not None and stream:
-        X = astq.estr(cmp["cond"]["args"][0]).split(".")[0]   # cond true  <=>  X < Y
-        Y = astq.estr(cmp["cond"]["args"][2]).split(".")[0]
-        # symbolic evaluation of the then-branch: a swap of the two locals through a temporary
-        def after(branch_taken):
-            env = {X: X, Y: Y}
-            if branch_taken:
-                for m in walk(cmp["then"]):
-                    tgt = src = None
-                    if m["k"] == "decl":
-                        for d in m["decls"]:
-                            if d.get("init") is not None:
-                                srcs = [y["n"] for y in walk(d["init"]) if y["k"] == "ref" and y.get("dk") == "local"]
-                                if srcs:
-                                    env[d["n"]] = env.get(srcs[0], srcs[0])
-                    if m["k"] == "opcall" and m["op"] == "=" and len(m["args"]) == 2:
-                        tgt = astq.estr(m["args"][0])
-                        srcs = [y["n"] for y in walk(m["args"][1]) if y["k"] == "ref" and y.get("dk") == "local"]
-                        if srcs:
-                            env[tgt] = env.get(srcs[0], srcs[0])
-            return [env.get(s_, s_) for s_ in stream]
-        t_case = after(True)    # X < Y : the lesser is X
-        f_case = after(False)   # Y <= X: the lesser-or-equal is Y
-        if cmp.get("else") is not None:
-            detail = "else-branch present (not the swap idiom)"
-        ok_branch = t_case[0] == X and f_case[0] == Y and set(t_case) == {X, Y} and bh == "HasherTapBranch"
-        detail = "when %s<%s streams %s; otherwise streams %s" % (X, Y, t_case, f_case)
+    if len(brc.params) != 2:
+        raise AnalysisBroken("R06.1: TapBranch(l, r) constructor not found")
+    HL, HR = ("f", L, "m_hash"), ("f", R, "m_hash")
+
+    def lt_of(t):
+        """P, Q such that the condition term t means P < Q (lexicographically, as byte strings)"""
+        if isinstance(t, tuple) and t[0] == "ap" and t[1] == "lexicographical_compare" and len(t) == 6:
+            ps = [x[2] if isinstance(x, tuple) and x[0] == "ap" and x[1] in ("m:begin", "m:end") and len(x) == 3 else None for x in t[2:]]
+            if None not in ps and ps[0] == ps[1] and ps[2] == ps[3]:
+                return ps[0], ps[2]
+        if isinstance(t, tuple) and t[0] == "ap" and t[1] == "<" and len(t) == 4:
+            return t[2], t[3]
+        return None
+    try:
+        bouts = [o for o in X.explore(brc, this=this, params={brc.params[0]["n"]: L, brc.params[1]["n"]: R}) if o.status in ("end", "ret")]
+    except symx.Unsupported as e:
+        raise AnalysisBroken("R06.1: TapBranch constructor: %s" % e)
+    if not bouts:
+        raise AnalysisBroken("R06.1: the TapBranch constructor has no completing path")
+    ok_branch = True
+    details = []
+    for o in bouts:
+        if o.field(this, "m_l") != L or o.field(this, "m_r") != R:
+            raise AnalysisBroken("R06.1: TapBranch does not store its two children in m_l / m_r")
+        h = o.field(this, "m_hash")
+        if not (h[0] == "ap" and h[1] == "m:GetSHA256" and len(h) == 3):
+            ok_branch = False
+            details.append("m_hash = %s" % symx.show(h))
+            continue
+        base, ops = symx.unmut(h[2])
+        order = [op[1] for op in ops if op[0] == "<<"]
+        cmpc = [(lt_of(t), v) for (t, v) in o.conds if lt_of(t) is not None and set(lt_of(t)) == {HL, HR}]
+        if base != ("a", "HasherTapBranch") or len(ops) != 2 or len(order) != 2:
+            ok_branch = False
+            details.append("m_hash = %s" % symx.show(h))
+            continue
+        if set(order) != {HL, HR}:
+            if any(symx.contains(x, HL) or symx.contains(x, HR) for x in order) and not all(x in (HL, HR) for x in order):
+                raise AnalysisBroken("R06.1: TapBranch streams %s - an ordering idiom this rule does not interpret" % [symx.show(x) for x in order])
+            ok_branch = False
+            details.append("streams %s" % [symx.show(x) for x in order])
+            continue
+        if not cmpc:
+            ok_branch = False
+            details.append("streams %s whatever their order" % [symx.show(x) for x in order])
+            continue
+        (P, Q), v = cmpc[-1]
+        smaller = P if v else Q
+        details.append("when %s%s%s streams %s" % (symx.show(P), "<" if v else ">=", symx.show(Q), [symx.show(x) for x in order]))
+        if order[0] != smaller:
+            ok_branch = False
+    detail = "; ".join(details)
     ctx.site()
-    ctx.inst(ok_branch, "R06.1", "branch-smaller-first", brc.loc(cmp) if cmp is not None else brc.loc(),
-             "TapBranch streams the lexicographically smaller child hash first (%s)" % detail,
+    ctx.inst(ok_branch, "R06.1", "branch-smaller-first", brc.loc(),
+             "TapBranch hashes TapBranch(smaller child hash, larger child hash) (%s)" % detail,
              "TapBranch does not stream the smaller child first (%s): the verifier folds (k,node) with the smaller first, so proofs do not verify" % detail)
-    # children come from m_l / m_r
-    srcs = {}
-    for n in brc.nodes():
-        if n["k"] == "decl":
-            for d in n["decls"]:
-                if d.get("init") is not None and d["n"] in ("h_l", "h_r"):
-                    srcs[d["n"]] = astq.estr(d["init"])
-    ctx.inst(srcs.get("h_l", "").replace("this->", "") in ("m_l->m_hash",) and srcs.get("h_r", "").replace("this->", "") in ("m_r->m_hash",), "R06.1", "branch-children", brc.loc(),
-             "the two streamed hashes are the left and right child hashes")
     # the constructor may link the children (m_parent) but must not modify them otherwise: Prove() later reads the children's
     # own hashes as sibling hashes
     ws = prog.write_sets().get(brc.id, {})
@@ -203,23 +199,67 @@ def run(ctx, anchors=None):
     if not prove:
         raise AnalysisBroken("TapBranch::Prove not found")
     prove = prove[0]
-    _cm.require_names(prove, ["child", "proof", "hash", "m_l", "m_r", "m_parent"], "R06.3")
-    arms = {}
-    for n in prove.nodes():
-        if n["k"] == "if" and n["cond"].get("k") == "bin" and n["cond"]["op"] == "==" and astq.estr(n["cond"]["lhs"]) == "child":
-            which = astq.estr(n["cond"]["rhs"]).replace("this->", "")
-            asg = [m for m in walk(n["then"]) if m["k"] == "opcall" and m["op"] == "="]
-            if asg:
-                arms[which] = astq.estr(asg[0]["args"][1]).replace("this->", "")
-    ctx.site()
-    ctx.inst(arms == {"m_l": "m_r->m_hash", "m_r": "m_l->m_hash"}, "R06.3", "sibling-hash", prove.loc(),
-             "child == left -> right's hash; child == right -> left's hash",
-             "Prove selects %s: the proof must contain the SIBLING's hash of each node on the path" % arms)
-    pcfg = prove.cfg()
-    app = [n for n in prove.nodes() if n["k"] == "mcall" and n.get("n") == "insert" and astq.estr(n.get("obj")) == "proof"]
-    rec = [n for n in prove.nodes() if n["k"] == "mcall" and n.get("n") == "Prove"]
-    ok_rec = len(app) == 1 and len(rec) == 1 and pcfg.dominates(app[0], rec[0]) and "proof.end()" in astq.estr(app[0]["args"][0]) and astq.estr(rec[0]["args"][0]) == "this"
-    ctx.inst(ok_rec, "R06.3", "append-then-recurse", prove.loc(), "the sibling hash is appended at the end of the proof before recursing to the parent with `this` as child",
+    if len(prove.params) != 2:
+        raise AnalysisBroken("R06.3: TapBranch::Prove(child, proof) not found")
+    cparam, pparam = prove.params[0]["n"], prove.params[1]["n"]
+    P0 = ("a", pparam)
+
+    def appended(t):
+        """proof term -> list of hashes appended at the end, or None if a mutation is not an append of [begin(H), end(H))"""
+        base, ops = symx.unmut(t)
+        if base != P0:
+            return None
+        cur = P0
+        hs = []
+        for op in ops:
+            if op[0] != "insert" or len(op) != 4:
+                return None
+            if not symx.contains(op[1], ("ap", "m:end", cur)):
+                return None
+            b_, e_ = op[2], op[3]
+            if not (b_[0] == "ap" and b_[1] == "m:begin" and e_[0] == "ap" and e_[1] == "m:end" and b_[2] == e_[2]):
+                return None
+            hs.append(b_[2])
+            cur = ("ap", "mut:insert", cur) + tuple(op[1:])
+        return hs
+    sib_ok, rec_ok = True, True
+    sel = {}
+    for (cname, child, sibling) in (("left", L, R), ("right", R, L), ("other", O, None)):
+        try:
+            outs = X.explore(prove, this=this, params={cparam: child}, heap={(this, "m_l"): L, (this, "m_r"): R})
+        except symx.Unsupported as e:
+            raise AnalysisBroken("R06.3: TapBranch::Prove: %s" % e)
+        for o in outs:
+            if o.status not in ("end", "ret"):
+                continue
+            rec = [e for e in o.events if e.kind == "mcall" and e.name == "Prove"]
+            ptx = rec[0].terms[2] if rec and len(rec[0].terms) >= 3 else X.var(o, pparam)
+            hs = appended(ptx)
+            if rec and hs == [] and sibling is not None:
+                rec_ok = False      # recursion to the parent before anything was appended
+                continue
+            if hs is None:
+                raise AnalysisBroken("R06.3: Prove builds the proof as %s - a form this rule does not interpret" % symx.show(ptx))
+            sel.setdefault(cname, set()).add(tuple(symx.show(h) for h in hs))
+            if sibling is None:
+                if hs:
+                    sib_ok = False
+                continue
+            if hs != [("f", sibling, "m_hash")]:
+                sib_ok = False
+            parent = ("f", this, "m_parent")
+            known_parent = [v for (t, v) in o.conds if t == parent]
+            if known_parent and known_parent[0] and not (len(rec) == 1 and rec[0].terms[0] == parent and rec[0].terms[1] == this):
+                rec_ok = False
+            if rec and not (len(rec) == 1 and rec[0].terms[0] == parent and rec[0].terms[1] == this):
+                rec_ok = False
+    if "left" not in sel or "right" not in sel:
+        raise AnalysisBroken("R06.3: Prove has no completing path for a left / right child")
+    ctx.site(3)
+    ctx.inst(sib_ok, "R06.3", "sibling-hash", prove.loc(),
+             "child == left -> right's hash; child == right -> left's hash; any other node -> nothing is appended",
+             "Prove appends %s: the proof must contain the SIBLING's hash of each node on the path" % {k: sorted(v) for k, v in sel.items()})
+    ctx.inst(rec_ok, "R06.3", "append-then-recurse", prove.loc(), "the sibling hash is appended at the end of the proof before recursing to the parent with `this` as child",
              "Prove does not (append at the end, then recurse to the parent with this): the verifier folds bottom-up")
     # ---- R06.4 data-dependence closure of the address
     dep = {}
